@@ -24,19 +24,25 @@ type C15Params struct {
 	// Expiry: the low priority clearance queue holds one entry only and the first Limit medium tasks keep running until
 	// released, so that low priority tasks queue up, find the queue full and start when their maximum delay expires
 	Expiry bool
+	// QueueCap > 0: both clearance queues hold only that many waiting requests, so that further submitters find the queue full
+	QueueCap int
 }
 
 func (p C15Params) Name() string {
-	return fmt.Sprintf("c15/limit=%d/%s/stopduring=%v/expiry=%v", p.Limit, strings.Join(p.Tasks, ","), p.StopDuring, p.Expiry)
+	n := fmt.Sprintf("c15/limit=%d/%s/stopduring=%v/expiry=%v", p.Limit, strings.Join(p.Tasks, ","), p.StopDuring, p.Expiry)
+	if p.QueueCap > 0 {
+		n += fmt.Sprintf("/queuecap=%d", p.QueueCap)
+	}
+	return n
 }
 
 type c15state struct {
-	gauge       int // medium+low bodies between begin and end
-	high        int // high priority bodies running
-	ran         []int
-	returned    []bool
-	shutdown    bool
-	maxGauge    int
+	gauge    int // medium+low bodies between begin and end
+	high     int // high priority bodies running
+	ran      []int
+	returned []bool
+	shutdown bool
+	maxGauge int
 }
 
 var c15 *c15state
@@ -61,6 +67,11 @@ func VerifC15(p C15Params) *vsched.Scenario {
 		release := make(chan struct{})
 		if p.Expiry {
 			lowPriorityClearance = make(chan chan struct{}, 1)
+		}
+		if p.QueueCap > 0 {
+			// the scheduler is parked (nothing is waiting): nobody holds the old channels
+			mediumPriorityClearance = make(chan chan struct{}, p.QueueCap)
+			lowPriorityClearance = make(chan chan struct{}, p.QueueCap)
 		}
 
 		body := func(k int, prio, outcome string) func(context.Context) error {
@@ -92,6 +103,10 @@ func VerifC15(p C15Params) *vsched.Scenario {
 				switch outcome {
 				case "err":
 					return wantErr
+				case "canceled":
+					return context.Canceled
+				case "wrapcanceled":
+					return fmt.Errorf("gave up: %w", context.Canceled)
 				case "panic":
 					panic("seeded microtask panic")
 				}
@@ -107,6 +122,10 @@ func VerifC15(p C15Params) *vsched.Scenario {
 			case "err":
 				if !errors.Is(err, wantErr) {
 					verifFail("blocking-variant-returns-the-error", "wrong-error", "microtask %d returned %v, want its own error", k, err)
+				}
+			case "canceled", "wrapcanceled":
+				if !errors.Is(err, context.Canceled) {
+					verifFail("blocking-variant-returns-the-error", "canceled-error-dropped", "microtask %d returned %v, want the context.Canceled error its function returned", k, err)
 				}
 			case "panic":
 				if ok, _ := IsPanic(err); !ok {
